@@ -452,13 +452,8 @@ func run(c *vh.Ctx) error {
 		}
 		c.Res.Count(canon, len(o.obs.Enters) > 1 || sp.Class == "exempt-initial", class)
 		if len(o.obs.Enters) > 0 {
-			w := baseTimeout
-			for _, x := range o.sc.Static {
-				if x > w {
-					w = x
-				}
-			}
-			cf.Add(coqCase(j.a, o.sc, &o.obs, time.Duration(1.5*float64(w))+3*time.Second), sp)
+			// a stall is watched for 2.5 d + 3 s after the entry, i.e. 1.5 d + 3 s (>= 3.6 s) past the deadline
+			cf.Add(coqCase(j.a, o.sc, &o.obs, 3*time.Second+baseTimeout/2), sp)
 			c.Res.TracesValidated++
 		}
 		if len(c.Res.Samples) < 6 && (sp.Class == "stall" || sp.Class == "walk") {
